@@ -504,6 +504,34 @@ func eachCase(c *fw.Ctx, which map[string]bool, f func(sc streamCase)) {
 			}
 		}
 		rec("", maxLen)
+		// the INCLUDE parameter over the same alphabet, bare and quoted, and the EMPTY quoted string in
+		// every parameter position of every directive kind
+		var recI func(prefix string, n int)
+		recI = func(prefix string, n int) {
+			if prefix != "" {
+				q := "\"" + strings.NewReplacer("\\", "\\\\", "\"", "\\\"").Replace(prefix) + "\""
+				emit(streamCase{stream: "names", label: "include-quoted", proj: drv.Project{Root: "root.jst", Files: map[string]string{"root.jst": "JSIGHT 0.3\nINCLUDE " + q + "\n", "a": "TYPE @a any\n"}}, opt: fixed})
+				emit(streamCase{stream: "names", label: "include-bare", proj: drv.Project{Root: "root.jst", Files: map[string]string{"root.jst": "JSIGHT 0.3\nINCLUDE " + prefix + "\nTYPE @t any\n", "a": "TYPE @a any\n"}}, opt: fixed})
+			}
+			if n == 0 {
+				return
+			}
+			for _, a := range alpha {
+				recI(prefix+a, n-1)
+			}
+		}
+		recI("", 2)
+		for _, host := range []string{"INCLUDE %s\n", "INFO\n  Title %s\n", "INFO\n  Version %s\n", "SERVER %s\n  BaseUrl \"http://x\"\n", "SERVER @s\n  BaseUrl %s\n", "GET %s\n  200 any\n", "URL %s\n  GET\n    200 any\n",
+			"URL /r\n  Protocol %s\n  Method m\n", "URL /r\n  Protocol json-rpc-2.0\n  Method %s\n", "TYPE %s any\n", "TYPE @t %s\n", "ENUM %s\n  [1]\n", "MACRO %s\n(\n  200 any\n)\n", "GET /p\n  PASTE %s\n", "TAG %s\n",
+			"GET /p\n  Tags %s\n  200 any\n", "GET /p\n  Query %s\n    {}\n  200 any\n", "GET /p\n  200 %s\n", "POST /p\n  Request %s\n  200 any\n", "POST /p\n  Request\n    Body %s\n  200 any\n", "GET /p\n  200\n    Headers %s\n    Body any\n", "JSIGHT %s\n"} {
+			for _, v := range []string{"\"\"", "\"\" \"\"", "\"\"x", "\" \""} {
+				body := fmt.Sprintf(host, v)
+				if !strings.HasPrefix(host, "JSIGHT") {
+					body = "JSIGHT 0.3\n" + body
+				}
+				emit(streamCase{stream: "names", label: "empty-quoted " + strings.Fields(host)[0], proj: drv.Project{Root: "root.jst", Files: map[string]string{"root.jst": body, "a": "TYPE @a any\n"}}, opt: fixed})
+			}
+		}
 		// JSON-RPC ids: method names and paths whose concatenation could coincide
 		for _, pr := range [][4]string{{"a /b", "/c", "a", "/b /c"}, {"m", "/x /y", "m /x", "/y"}, {"a", "/b", "a", "/b"}, {"GET", "/x", "get", "/x"}} {
 			single("names", "rpc-id-collision", fmt.Sprintf("JSIGHT 0.3\nURL \"%s\"\n  Protocol json-rpc-2.0\n  Method \"%s\"\nURL \"%s\"\n  Protocol json-rpc-2.0\n  Method \"%s\"\n", pr[1], pr[0], pr[3], pr[2]))
